@@ -27,7 +27,7 @@ func TestExhOddOperands(t *testing.T) {
 			stmt := strings.ReplaceAll(ctx, "%s", op)
 			cases := []srcmut.Case{
 				{Input: probe.Input{Kind: "program", Files: map[string]string{"go.mod": "module m\n", "main.go": oddops.Program(ctx, op)}}, Origin: "oddops", Mutation: fmt.Sprintf("ctx %d op %d", ci, oi)},
-				{Input: probe.Input{Kind: "template", Files: map[string]string{"index.html": "{% type T struct{ a int } %}{% var x0 int %}{% var v = func() {} %}{% var v2 = func(int) {} %}{% var two = func() (int, int) { return 1, 2 } %}{%%\n" + stmt + "\n%%}"}, Main: "index.html"}, Origin: "oddops", Mutation: fmt.Sprintf("template ctx %d op %d", ci, oi)},
+				{Input: probe.Input{Kind: "template", Files: map[string]string{"index.html": "{% type T struct{ a int } %}{% var x0 int %}{% var v = func() {} %}{% var v2 = func(int) {} %}{% var two = func() (int, int) { return 1, 2 } %}{% var one = func() int { return 1 } %}{%%\n" + stmt + "\n%%}"}, Main: "index.html"}, Origin: "oddops", Mutation: fmt.Sprintf("template ctx %d op %d", ci, oi)},
 			}
 			for _, c := range cases {
 				ev.Journal("build", c)
